@@ -209,16 +209,10 @@ theorem foreach_src_aux {code Os P o fr F px S c ws es}
       (ND r2.stop → ∀ R', EqOn (KeepP Os P o oo) R1 R' → EqOn K Rref R' →
         R' (f.base + i) = .v ((upd w s).outs.getLast?.getD s) →
         Yields code O P o fr F pend S (.fail (F'' ++ F) none R') r2.outs r2.stop.toErr) →
-      ND (match (upd w s).stop with
-          | .diverge => (⟨[], .diverge⟩ : Res)
-          | _ => (Res.bindL (ext w) (upd w s).outs (upd w s).stop).seq r2).stop →
+      ND (guardND (upd w s) ((Res.bindL (ext w) (upd w s).outs (upd w s).stop).seq r2)).stop →
       Yields code O P o fr F pend S (.run px (.v w :: S) (F'' ++ F) false none R1 fr oo cp)
-        (match (upd w s).stop with
-          | .diverge => (⟨[], .diverge⟩ : Res)
-          | _ => (Res.bindL (ext w) (upd w s).outs (upd w s).stop).seq r2).outs
-        (match (upd w s).stop with
-          | .diverge => (⟨[], .diverge⟩ : Res)
-          | _ => (Res.bindL (ext w) (upd w s).outs (upd w s).stop).seq r2).stop.toErr) →
+        (guardND (upd w s) ((Res.bindL (ext w) (upd w s).outs (upd w s).stop).seq r2)).outs
+        (guardND (upd w s) ((Res.bindL (ext w) (upd w s).outs (upd w s).stop).seq r2)).stop.toErr) →
     EqOn K Rref c.regs → c.regs (f.base + i) = .v cur → ND (foreachL upd ext ss ws cur).stop →
     Yields code O P o fr F pend S c (foreachL upd ext ss ws cur).outs (foreachL upd ext ss ws cur).stop.toErr := by
   induction ys with
@@ -257,11 +251,10 @@ theorem eval_foreach_nd_left {defs n g ρ x src init upd ext v}
 theorem eval_foreach_of_nd {defs n g ρ x src init upd ext v} (h : ND (eval defs n g ρ init v).stop) :
     eval defs (n+1) g ρ (.foreach x src init upd ext) v =
       Res.bindL (fun s0 =>
-        match (eval defs n g ρ src v).stop with
-        | .diverge => ⟨[], .diverge⟩
-        | _ => foreachL (fun w s => eval defs n g ⟨ρ.clo, (x, w) :: ρ.vars⟩ upd s)
-                 (fun w u => eval defs n g ⟨ρ.clo, (x, w) :: ρ.vars⟩ ext u)
-                 (eval defs n g ρ src v).stop (eval defs n g ρ src v).outs s0)
+        guardND (eval defs n g ρ src v)
+          (foreachL (fun w s => eval defs n g ⟨ρ.clo, (x, w) :: ρ.vars⟩ upd s)
+            (fun w u => eval defs n g ⟨ρ.clo, (x, w) :: ρ.vars⟩ ext u)
+            (eval defs n g ρ src v).stop (eval defs n g ρ src v).outs s0))
         (eval defs n g ρ init v).outs (eval defs n g ρ init v).stop := by
   simp only [eval]
   generalize eval defs n g ρ init v = ri at h
@@ -343,11 +336,10 @@ theorem cy_foreach {code defs entry nf n} (hfun : FuncsOK code defs entry nf) (i
     (fun h => hpar (Or.inr (Or.inl h))) (fun a h => by have := hP a h; omega) henv (by rw [hci]; omega) hndi
   rw [hci, hpst] at yi
   have := Yields.bind (R0 := R)
-    (f := fun s0 => match (eval defs n g ρ src v).stop with
-      | .diverge => (⟨[], .diverge⟩ : Res)
-      | _ => foreachL (fun w s => eval defs n g ⟨ρ.clo, (x, w) :: ρ.vars⟩ upd s)
-               (fun w u => eval defs n g ⟨ρ.clo, (x, w) :: ρ.vars⟩ ext u)
-               (eval defs n g ρ src v).stop (eval defs n g ρ src v).outs s0)
+    (f := fun s0 => guardND (eval defs n g ρ src v)
+      (foreachL (fun w s => eval defs n g ⟨ρ.clo, (x, w) :: ρ.vars⟩ upd s)
+        (fun w u => eval defs n g ⟨ρ.clo, (x, w) :: ρ.vars⟩ ext u)
+        (eval defs n g ρ src v).stop (eval defs n g ρ src v).outs s0))
     (Oa := Own (base fr) e (p+1) ci.length)
     (Ob := Own (base fr) e pst (1 + cs.length + 2 + cu.length + 2 + ce.length))
     (O := Own (base fr) e p (1 + ci.length + 1 + cs.length + 2 + cu.length + 2 + ce.length))
@@ -359,22 +351,8 @@ theorem cy_foreach {code defs entry nf n} (hfun : FuncsOK code defs entry nf) (i
     (by intro i h; have := hP i h; refine ⟨by omega, ?_⟩; intro h'; obtain ⟨j, h1, h2, h3⟩ := h'; omega)
     yi
     (fun s0 G R' o1 cp' ho1 hR' hs0 => by
-      have hnds : ND (eval defs n g ρ src v).stop := by
-        generalize eval defs n g ρ src v = rsrc at hs0
-        rcases rsrc with ⟨osrc, ssrc⟩
-        cases ssrc <;> simp_all [ND]
-      have hf : (match (eval defs n g ρ src v).stop with
-          | .diverge => (⟨[], .diverge⟩ : Res)
-          | _ => foreachL (fun w s => eval defs n g ⟨ρ.clo, (x, w) :: ρ.vars⟩ upd s)
-                   (fun w u => eval defs n g ⟨ρ.clo, (x, w) :: ρ.vars⟩ ext u)
-                   (eval defs n g ρ src v).stop (eval defs n g ρ src v).outs s0) =
-          foreachL (fun w s => eval defs n g ⟨ρ.clo, (x, w) :: ρ.vars⟩ upd s)
-                   (fun w u => eval defs n g ⟨ρ.clo, (x, w) :: ρ.vars⟩ ext u)
-                   (eval defs n g ρ src v).stop (eval defs n g ρ src v).outs s0 := by
-        generalize eval defs n g ρ src v = rsrc at hnds
-        rcases rsrc with ⟨osrc, ssrc⟩
-        cases ssrc <;> simp_all [ND]
-      simp only [hf] at hs0 ⊢
+      have hnds : ND (eval defs n g ρ src v).stop := nd_of_guardND hs0
+      simp only [guardND_of_nd hnds] at hs0 ⊢
       let R'' := R'.set rs (.v s0)
       have hR'' : EqOn P R' R'' := by
         intro a ha; simp only [R'', Regs.set]; split
@@ -402,22 +380,8 @@ theorem cy_foreach {code defs entry nf n} (hfun : FuncsOK code defs entry nf) (i
         (by
           -- one element of the source
           intro w F'' R1 oo cpp s r2 hF'' hoo hR1s hR1P hnil tail hnde
-          have hndu : ND (eval defs n g ⟨ρ.clo, (x, w) :: ρ.vars⟩ upd s).stop := by
-            generalize eval defs n g ⟨ρ.clo, (x, w) :: ρ.vars⟩ upd s = ru at hnde
-            rcases ru with ⟨ou', su⟩
-            cases su <;> simp_all [ND]
-          have hm : (match (eval defs n g ⟨ρ.clo, (x, w) :: ρ.vars⟩ upd s).stop with
-              | .diverge => (⟨[], .diverge⟩ : Res)
-              | _ => (Res.bindL (fun u => eval defs n g ⟨ρ.clo, (x, w) :: ρ.vars⟩ ext u)
-                        (eval defs n g ⟨ρ.clo, (x, w) :: ρ.vars⟩ upd s).outs
-                        (eval defs n g ⟨ρ.clo, (x, w) :: ρ.vars⟩ upd s).stop).seq r2) =
-              (Res.bindL (fun u => eval defs n g ⟨ρ.clo, (x, w) :: ρ.vars⟩ ext u)
-                        (eval defs n g ⟨ρ.clo, (x, w) :: ρ.vars⟩ upd s).outs
-                        (eval defs n g ⟨ρ.clo, (x, w) :: ρ.vars⟩ upd s).stop).seq r2 := by
-            generalize eval defs n g ⟨ρ.clo, (x, w) :: ρ.vars⟩ upd s = ru at hndu
-            rcases ru with ⟨ou', su⟩
-            cases su <;> simp_all [ND]
-          simp only [hm] at hnde ⊢
+          have hndu : ND (eval defs n g ⟨ρ.clo, (x, w) :: ρ.vars⟩ upd s).stop := nd_of_guardND hnde
+          simp only [guardND_of_nd hndu] at hnde ⊢
           let R1x := R1.set rx (.v w)
           let P' : Nat → Prop := fun a => P a ∨ a = rx
           have hR1x : EqOn P R1 R1x := by
